@@ -114,6 +114,22 @@ func caseRepoHistory(r *rng.R, n int) string {
 		drivers = []string{"common", "common/drv.a", "common/drv.a", "common/lib.a", "a.a", "shared.a"}
 		count("caserepo.subdir")
 	}
+	if len(ops) == 0 && r.Chance(10) {
+		// a case file that is a symbolic link to a file kept elsewhere: a case file like any other; it shares its driver
+		ext, err := os.MkdirTemp("", "verif-repoext")
+		if err != nil {
+			panic(err)
+		}
+		defer os.RemoveAll(ext)
+		data, _ := json.Marshal(verifier.NewTestCaseWithDriver("d", "linked", "shared.a"))
+		os.WriteFile(filepath.Join(ext, "linked.json"), data, 0600)
+		os.Symlink(filepath.Join(ext, "linked.json"), filepath.Join(dir, "linked.json"))
+		os.WriteFile(filepath.Join(dir, "shared.a"), []byte("text"), 0600)
+		ops = append(ops, "plantlink:linked.json")
+		outs = append(outs, "ok|"+dirListing(dir))
+		drivers = []string{"shared.a", "shared.a", "a.a", "lib.a"}
+		count("caserepo.symlink")
+	}
 	for i := 0; i < n; i++ {
 		res := "ok"
 		switch k := r.Intn(10); {
@@ -154,10 +170,29 @@ func caseRepoHistory(r *rng.R, n int) string {
 			ops = append(ops, "del:"+nm)
 		default:
 			got := []string{}
-			cnt, err := repo.IterateTestCases(func(name string, tc *verifier.TestCase) error {
-				got = append(got, name)
-				return nil
-			})
+			var cnt uint
+			var err error
+			if viaCmd && r.Bool() {
+				// the real `list` command: one line `<description> => <case file>` per case (all descriptions are equal here)
+				var text []byte
+				var panicked bool
+				text, panicked = captureStdout(func() { err = commands.ListCommand([]string{"-c", cfgFile}) })
+				if panicked {
+					err = fmt.Errorf("panic")
+				}
+				for _, l := range strings.Split(string(text), "\n") {
+					if i := strings.LastIndex(l, " => "); i >= 0 {
+						got = append(got, strings.TrimSpace(l[i+4:]))
+					}
+				}
+				cnt = uint(len(got))
+				count("caserepo.listcommand")
+			} else {
+				cnt, err = repo.IterateTestCases(func(name string, tc *verifier.TestCase) error {
+					got = append(got, name)
+					return nil
+				})
+			}
 			sort.Strings(got)
 			if err != nil {
 				res = "err"
